@@ -183,17 +183,19 @@ def cfg_facts(f):
             if d != pdom[v]:
                 pdom[v] = d
                 changed = True
-    # forward reachability
+    # reachability along forward edges only (retreating edges removed)
+    back = set(retreating)
+    fsc = [[v for v in sc[u] if (u, v) not in back] for u in range(n)]
     reach = [0] * n
     for v in range(n):
         seen_r = 0
-        work = list(sc[v])
+        work = list(fsc[v])
         while work:
             x = work.pop()
             if seen_r >> x & 1:
                 continue
             seen_r |= 1 << x
-            work.extend(sc[x])
+            work.extend(fsc[x])
         reach[v] = seen_r
     facts["unmerged_branch_before_loop"] = False
     if reducible:
@@ -256,22 +258,17 @@ def cfg_facts(f):
                     elif pdom[c] & others == others:
                         ip = c
                         break
+            # the structure detector keeps generating inside a loop construct for everything the
+            # loop header dominates, so the loop that matters is the nearest dominating header
             inner = None
-            for hd, body in loops.items():
-                if u in body and (inner is None or len(body) < len(loops[inner])):
+            for hd in loops:
+                if dom[u] >> hd & 1 and (inner is None or bin(dom[hd]).count("1") > bin(dom[inner]).count("1")):
                     inner = hd
             proper = ip is not None and ip != n and (inner is None or (ip in loops[inner] and ip != inner))
-            if not proper:
-                a, b = sc[u]
+            if not proper and len(fsc[u]) == 2:
+                a, b = fsc[u]
                 both = (reach[a] | 1 << a) & (reach[b] | 1 << b)
-                inside = both
-                if inner is not None:
-                    inside = 0
-                    for x in loops[inner]:
-                        inside |= 1 << x
-                    inside &= both
-                    inside &= ~(1 << inner)
-                if inside & hdrs:
+                if both & hdrs:
                     facts["unmerged_branch_before_loop"] = True
     return facts
 
